@@ -40,7 +40,8 @@ def cases(draw, tier="quick"):
         wrt = draw(st.sampled_from(allv))
     pts = draw(gen.points(allv, k=3))
     cfg = draw(st.sampled_from(["default", "default", "lowthr"]))
-    return {"env": env, "expr": recipe, "wrt": wrt, "points": pts, "config": cfg, "wrt_fresh": draw(st.integers(0, 3)) == 0}
+    return {"env": env, "expr": recipe, "wrt": wrt, "points": pts, "config": cfg, "wrt_fresh": draw(st.integers(0, 3)) == 0,
+            "newp": {p["name"]: draw(st.sampled_from([0.5, 2.0, 5.0, -1.5, 0.0, 1.0])) for p in env["params"]}}
 
 
 def strategy(tier):
@@ -80,13 +81,26 @@ def check(case):
         except Exception as ex:
             return Result.violation(f"gradient-raises:{exc_label(ex)}", f"d/d{wrt} {show(recipe)}: {ex!r}", classes)
         judged = 0
-        for pt in case["points"]:
+        rounds = [("initial", pv, (("cold", g1), ("warm", g2)))]
+        if env["params"] and case.get("newp"):
+            rounds.append(("params-updated", dict(case["newp"]), None))
+        for rtag, pv, grads in rounds:
+          if grads is None:
+            # parameters updated after differentiation: the gradient held by the caller and a new gradient() call
+            for p_ in env["params"]:
+                b.params[p_["name"]].set(pv[p_["name"]])
+            try:
+                grads = (("held", g1), ("recomputed", gradient(e, v)))
+            except Exception as ex:
+                return Result.violation(f"gradient-raises:{exc_label(ex)}", f"d/d{wrt} {show(recipe)} after set: {ex!r}", classes)
+            classes.append("params-updated-after-differentiation")
+          for pt in case["points"]:
             j, sc = jet_ref(env, recipe, [wrt], pt, pv, second=False)
             if not sc.ok or sc.maxabs > 1e6 or sc.sing < 0.05:
                 continue
             judged += 1
             ref, shadow = float(j.g[0]), float(j.ag[0])
-            for tag, gx in (("cold", g1), ("warm", g2)):
+            for tag, gx in grads:
                 try:
                     got = to_float(gx.evaluate(dict(pt)))
                 except Exception as ex:
@@ -99,8 +113,8 @@ def check(case):
                     continue
                 if not (abs(got - ref) <= 1e-9 * (1.0 + shadow)):
                     return Result.violation(
-                        "gradient-mismatch",
-                        f"d/d{wrt} {show(recipe)} at {pt}: got {got!r}, reference {ref!r} (shadow {shadow:.3g}, {tag})",
+                        "gradient-mismatch" if rtag == "initial" else "gradient-stale-after-parameter-update",
+                        f"d/d{wrt} {show(recipe)} at {pt} params={pv}: got {got!r}, reference {ref!r} (shadow {shadow:.3g}, {tag})",
                         classes)
         if judged == 0:
             return Result.discard("no-regular-point", classes)
